@@ -30,6 +30,12 @@ def find_query(mod, name):
 def analyze(fn, timeout, per_path):
     from crosshair.core_and_libs import analyze_function, run_checkables, MessageType
     from crosshair.options import AnalysisOptionSet, AnalysisKind
+    # CrossHair by-passes functools.lru_cache under its tracer; gwf's touch_workflow relies on the cache as
+    # its visited set, so by-passing it would change the behaviour of the real code (measured: a diamond's
+    # shared dependency touched twice).  Keys here are concrete objects, so the real cache is safe to keep.
+    from functools import _lru_cache_wrapper
+    from crosshair import core as _xcore
+    _xcore._PATCH_REGISTRATIONS.pop(_lru_cache_wrapper.__call__, None)
     opts = AnalysisOptionSet(
         per_condition_timeout=timeout,
         per_path_timeout=per_path,
